@@ -135,15 +135,23 @@ def lean_obligations(prop, log):
     log.append(out.strip())
     if rc != 0:
         broken.append("translator gen_tables.py failed: " + out.strip()[-300:])
-    props_file = os.path.join(LEAN, "UBidi", "Props", prop + ".lean")
-    names = theorem_names(props_file)
+    # a property's theorems live in Props/Cxx.lean and, where a later layer had to import the first
+    # (to avoid import cycles), in Props/Cxx<Suffix>.lean; names are kept as "<module>.<theorem>"
+    import glob as _glob
+    mods = sorted(os.path.basename(f)[:-5] for f in _glob.glob(os.path.join(LEAN, "UBidi", "Props", prop + "*.lean")))
+    names = []
+    audit_extra = []   # stage theorems that live in Lemmas/ and are listed in a Props file as `-- AUDIT: <full name>`
+    for m in mods:
+        fpath = os.path.join(LEAN, "UBidi", "Props", m + ".lean")
+        names += ["%s.%s" % (m, n) for n in theorem_names(fpath)]
+        audit_extra += re.findall(r"^--\s*AUDIT:\s*(\S+)", open(fpath, encoding="utf-8").read(), re.M)
     t0 = time.time()
-    rc, out = sh(["lake", "build", "UBidi.Props." + prop, "ubidi-driver"], cwd=LEAN, timeout=3000)
+    rc, out = sh(["lake", "build", "ubidi-driver"] + ["UBidi.Props." + m for m in mods], cwd=LEAN, timeout=3000)
     log.append("lake build: rc=%d %.1fs" % (rc, time.time() - t0))
     build_ok = rc == 0
     if not build_ok:
         errs = [l for l in out.splitlines() if "error" in l][:8]
-        broken.append("lake build UBidi.Props.%s failed: %s" % (prop, " | ".join(errs)[:600]))
+        broken.append("lake build %s failed: %s" % (" ".join("UBidi.Props." + m for m in mods), " | ".join(errs)[:600]))
     # forbidden tokens outside comments, whole library
     hits = []
     for dp, _, fs in os.walk(os.path.join(LEAN, "UBidi")):
@@ -163,15 +171,21 @@ def lean_obligations(prop, log):
         os.makedirs(WORK, exist_ok=True)
         audit = os.path.join(WORK, "Audit_%s.lean" % prop)
         with open(audit, "w") as f:
-            f.write("import UBidi.Props.%s\n" % prop)
+            for m in mods:
+                f.write("import UBidi.Props.%s\n" % m)
             for n in names:
-                f.write("#print axioms UBidi.Props.%s.%s\n" % (prop, n))
+                f.write("#print axioms UBidi.Props.%s\n" % n)
+            for n in audit_extra:
+                f.write("#print axioms %s\n" % n)
         rc, out = sh(["lake", "env", "lean", audit], cwd=LEAN, timeout=1200)
         cur = None
         text = out.replace("\n  ", " ")
-        for m in re.finditer(r"'UBidi\.Props\.%s\.(\S+?)' (depends on axioms: \[([^\]]*)\]|does not depend on any axioms)" % prop, text):
+        for m in re.finditer(r"'UBidi\.Props\.(%s\w*\.\S+?)' (depends on axioms: \[([^\]]*)\]|does not depend on any axioms)" % prop, text):
             axs = [a.strip() for a in (m.group(3) or "").split(",") if a.strip()]
             axioms[m.group(1)] = axs
+        for m in re.finditer(r"'(UBidi\.(?:Lemmas|Expand)\.\S+?)' (depends on axioms: \[([^\]]*)\]|does not depend on any axioms)", text):
+            axioms[m.group(1)] = [a.strip() for a in (m.group(3) or "").split(",") if a.strip()]
+        names = names + audit_extra
         for n in names:
             if n not in axioms:
                 broken.append("theorem %s: axiom audit produced no answer" % n)
@@ -181,8 +195,8 @@ def lean_obligations(prop, log):
                     broken.append("theorem %s depends on %s" % (n, ",".join(bad)))
     if build_ok and os.environ.get("VERIF_TIER_INTERNAL") == "thorough":
         t0 = time.time()
-        rc, out = sh(["lake", "env", "leanchecker", "UBidi.Props." + prop], cwd=LEAN, timeout=3000)
-        log.append("leanchecker UBidi.Props.%s: rc=%d %.1fs" % (prop, rc, time.time() - t0))
+        rc, out = sh(["lake", "env", "leanchecker"] + ["UBidi.Props." + m for m in mods], cwd=LEAN, timeout=3000)
+        log.append("leanchecker %s: rc=%d %.1fs" % (" ".join(mods), rc, time.time() - t0))
         if rc != 0:
             broken.append("leanchecker rejected UBidi.Props.%s: %s" % (prop, out.strip()[-300:]))
     obligations = len(names) + 3  # theorems + translator + build + hygiene scan
@@ -487,7 +501,7 @@ def main():
     lens = [int(m.group(1)) for r in results for m in [re.search(r"\bn=(\d+)", r["stats"])] if m]
     maxls = [int(m.group(1)) for r in results for m in [re.search(r"\bmaxl=(\d+)", r["stats"])] if m]
     samples = [r["line"][:400] for r in results if r["line"]][:3]
-    thm_samples = ["theorem UBidi.Props.%s.%s  axioms=%s" % (prop, n, axioms.get(n, "?")) for n in names[:6]]
+    thm_samples = ["theorem UBidi.Props.%s  axioms=%s" % (n, axioms.get(n, "?")) for n in names[:6]]
     ev = {
         "property_id": prop,
         "tier": tier,
@@ -496,7 +510,7 @@ def main():
         "coverage": {
             "obligations": obligations,
             "discharged": discharged,
-            "checker_cmd": "cd /verif/lean && lake build UBidi.Props.%s && lake env lean ../work/Audit_%s.lean   (#print axioms of every theorem)" % (prop, prop),
+            "checker_cmd": "cd /verif/lean && lake build UBidi.Props.%s* && lake env lean ../work/Audit_%s.lean   (#print axioms of every theorem)" % (prop, prop),
             "trusted_base": [
                 "Lean 4.33.0 kernel; axioms allowed: propext, Classical.choice, Quot.sound (audited per theorem on this run)",
                 "Model /verif/lean/UBidi/Model (hand transcription of the crate) tied to /repo by this run's correspondence only",
